@@ -54,6 +54,7 @@ fn dispatch(op: &str, args: &[Sexp]) -> String {
         "tetris.compile" => crate::props::c08::op_compile(args),
         "tf.apply" => crate::props::c12::op_apply(args),
         "tf.general" => crate::props::c12::op_general(args),
+        "tf.gchain" => crate::props::c12::op_gchain(args),
         "raw.flatten" => crate::props::c12::op_flatten(args),
         "geom.contains" => crate::props::c13::op_contains(args),
         "dep.generic" => crate::props::c17::op_generic(args),
